@@ -4,7 +4,7 @@ CLUSTERS = {
     # name -> extraction file (coq/theories/Extract), extracted module, entry point
     "vals": {"extract": "ExtractVals.v", "ml": "model_vals", "entry": "main_vals"},
     "url": {"extract": "ExtractUrl.v", "ml": "model_url", "entry": "main_url"},
-    "codec": {"extract": "ExtractCodec.v", "ml": "model_codec", "entry": "main_codec"},
+    "codec": {"extract": "ExtractCodec.v", "ml": "model_codec", "entry": "main_codec", "ops": ["norm"]},
     "expand": {"extract": "ExtractExpand.v", "ml": "model_expand", "entry": "main_expand"},
 }
 
@@ -91,5 +91,55 @@ PROPS = {
                       "running model and implementation, not proved.",
         "technique": "Coq proof about a hand-written executable model + differential run + property oracle on the implementation",
         "assumptions": ["authority is a host with at most one port (the property's quantifier)"],
+    },
+    "C01": {
+        "props": "theories/Props/C01.v", "gens": [("tables", "Codec/Gen_Tables.v")], "cluster": "codec", "gen": "codec",
+        "n": {"quick": 1200, "thorough": 12000}, "oracle_n": {"quick": 600, "thorough": 8000},
+        "out_of_scope_shapes": {"response-ref-headers-dropped": "a response object carrying both $ref and other members is not a Swagger 2.0 object (response is oneOf response|jsonReference): outside the normal form",
+                                "responses-uppercase-extension": "X-Foo is not a vendor extension (the pattern is ^x-): outside the vocabulary"},
+        "rule": "correspondence: norm (= json.Marshal after json.Unmarshal) for 24 kinds on every keyword alone and every pair of keywords, "
+                "random normal-form documents (depth <= 5, nasty member names, free-form payloads, zero validations) and single-fault "
+                "mutations of them; member ORDER of the output is compared; oracle: decode/encode equals the input as a JSON value on "
+                "normal-form documents; non-trivial = at least one member; distinct = distinct (kind, document)",
+        "trusted_base": COMMON_TB + ["translator/tables.go: struct tags, named types, parts of (Un)MarshalJSON bodies, keyword sets of the two shipped meta-schemas",
+                                     "Codec/Codec.v: hand model of encoding/json's generic rules and of the package's irregular codecs (Schema, Response, SecurityScheme, Paths, Responses, unions), run against the implementation"],
+        "level_text": "Coq theorems over tables regenerated from /repo (Props/C01.v): every keyword of the Swagger 2.0 and draft-4 meta-schemas, `$ref` and the "
+                      "^x- extensions are decodable AND encodable for each of the 13 kinds (coverage), every listed kind carries extensions both "
+                      "ways, decoded parts = encoded parts, the hand-transcribed codecs still have the transcribed part structure. The full "
+                      "round-trip statement is kept as C01_statement and is NOT proved generically; it is checked by the differential run and the oracle.",
+        "level_note": "Partial: table-level obligations are proofs (vm_compute over generated tables, closed under the global context); the semantic round trip "
+                      "for all documents is tied by the differential run (norm model vs Go, 0 mismatches required) — see DESIGN.md sections 4 and 9.",
+        "technique": "Coq obligations over tables regenerated from source + differential run of the extracted codec model + property oracle",
+        "assumptions": ["numbers are compared as float64 values", "documents have no duplicate member names in the compared stream (duplicates are exercised for totality only)"],
+    },
+    "C06": {
+        "props": "theories/Props/C06.v", "gens": [("tables", "Codec/Gen_Tables.v")], "cluster": "codec", "gen": "codec",
+        "n": {"quick": 1200, "thorough": 12000}, "oracle_n": {"quick": 400, "thorough": 4000},
+        "rule": "as C01 (member order compared, x-order values incl. ties, strings, non-integers); oracle: 20 encodings after re-decoding "
+                "byte-identical, no duplicate member in any object (token walk), output re-decodable, builder-made values (AddExtension with "
+                "arbitrary keys, SetProperty, ...) re-parse to what they encode; non-trivial = at least one member",
+        "trusted_base": COMMON_TB + ["translator/tables.go", "Codec/Codec.v (order_items = OrderSchemaItems.Less + sort.Sort, sort_members = encoding/json's sorted map keys)"],
+        "level_text": "Coq theorems (Props/C06.v), unbounded: for every iteration order of a map (any permutation of its entries) the encoder's member "
+                      "sequence is the same — sorted keys for maps; for schema properties the (x-order as GetInt reads it, name) order is a strict "
+                      "total order, the output is a sorted permutation and is unique (ties, numeric strings, truncated floats included); no two "
+                      "parts of a kind emit the same name and no field can collide with an extension (tables regenerated from /repo).",
+        "level_note": "Partial: builder-API values (non x- keys in Extensions etc.) are covered by the oracle on the implementation only; string escaping "
+                      "of leaf values is encoding/json's (trusted).",
+        "technique": "Coq proof (sorting uniqueness, total order) + table obligations + differential run + oracle",
+        "assumptions": ["sort.Sort returns a sorted permutation when Less is a strict total order on the elements"],
+    },
+    "C07": {
+        "props": "theories/Props/C07.v", "gens": [("tables", "Codec/Gen_Tables.v")], "cluster": "codec", "gen": "codec",
+        "n": {"quick": 1200, "thorough": 12000}, "oracle_n": {"quick": 150, "thorough": 2000},
+        "rule": "as C01, with the mutation stream (wrong types, nulls, empty containers, duplicates, case-folded names, extreme numbers, odd $ref "
+                "strings, deep nesting); oracle: every document into every kind as decode target: no panic/hang, encode twice byte-identical; raw "
+                "byte stream for totality; non-trivial = non-empty document",
+        "trusted_base": COMMON_TB + ["Codec/Codec.v", "encoding/json validates bytes before any UnmarshalJSON of the package runs (bytes -> tree is the standard library's)"],
+        "level_text": "Coq: the model of decode-then-encode is a structural recursion on the JSON tree accepted by the guard checker (total on every tree, "
+                      "every kind); fixed-point examples by evaluation; the known non-fixed point (F4b) as a refutation witness. The full idempotence "
+                      "statement C07_statement is not proved generically; it is checked by the oracle on the implementation (all kinds x all documents).",
+        "level_note": "Partial: idempotence for all inputs rests on the oracle and the differential run; panics/stack exhaustion are runtime behaviour the model cannot exhibit (oracle runs with a watchdog).",
+        "technique": "Coq totality by structural recursion + evaluation witnesses + differential run + oracle",
+        "assumptions": ["member names that case-fold onto a keyword are only checked for totality (the property's exception)"],
     },
 }
